@@ -189,6 +189,14 @@ public:
 
     void bvisit(const Basic &x){};
 
+    // set classes without a rule below (Intersection, ConditionSet): the
+    // result would stay a null pointer and be dereferenced by the callers
+    void bvisit(const Set &x)
+    {
+        throw NotImplementedError(
+            "boundary is not implemented for this type of set");
+    };
+
     void bvisit(const EmptySet &x)
     {
         boundary_ = emptyset();
